@@ -130,6 +130,8 @@ fn random_perm(rng: &mut StdRng, n: usize) -> Vec<usize> {
 pub struct UnifyOutcome {
     /// per variable (declared ones first, then any the unifier allocated): class members and expressions
     pub vars:    Vec<(usize, Vec<usize>, Vec<J>)>,
+    /// variables of the state the resulting forest does not know
+    pub unknown: Vec<usize>,
     pub nvars:   usize,
     pub stopped: bool,
     pub polls:   u64,
@@ -151,9 +153,17 @@ pub fn run_unify(nvars: usize, judgements: &[(usize, TE)], budget: u64) -> Unify
         let res = unification::unify(&mut state, &wd2);
         let stopped = res.is_err();
         let mut out = Vec::new();
+        let mut unknown: Vec<usize> = Vec::new();
         let total = state.tyvar_count();
         if !stopped {
             let forest = state.result();
+            // which variables of the state the forest knows about, asked before any `find` (which registers
+            // what it is asked about): every variable of the state must have come out of unification resolved
+            for v in 0..total {
+                if forest.get_data(&tv(v)).is_none() {
+                    unknown.push(v);
+                }
+            }
             let mut by_rep: BTreeMap<usize, Vec<usize>> = BTreeMap::new();
             for v in 0..total {
                 let rep = idx(forest.find(&tv(v)));
@@ -172,10 +182,11 @@ pub fn run_unify(nvars: usize, judgements: &[(usize, TE)], budget: u64) -> Unify
                 out.push((v, by_rep[&rep].clone(), exprs));
             }
         }
-        (out, total, stopped)
+        (out, total, stopped, unknown)
     });
     match r {
-        Ok((vars, total, stopped)) => UnifyOutcome {
+        Ok((vars, total, stopped, unknown)) => UnifyOutcome {
+            unknown,
             vars,
             nvars: total,
             stopped,
@@ -183,6 +194,7 @@ pub fn run_unify(nvars: usize, judgements: &[(usize, TE)], budget: u64) -> Unify
             panic: None,
         },
         Err(p) => UnifyOutcome {
+            unknown: vec![],
             vars:    vec![],
             nvars,
             stopped: false,
@@ -194,7 +206,7 @@ pub fn run_unify(nvars: usize, judgements: &[(usize, TE)], budget: u64) -> Unify
 
 fn outcome_json(o: &UnifyOutcome, declared: usize) -> J {
     let mut v = json!({
-        "nvars": o.nvars, "stopped": o.stopped, "polls": o.polls,
+        "nvars": o.nvars, "stopped": o.stopped, "polls": o.polls, "unknown": o.unknown,
         "vars": o.vars.iter().filter(|(v, ..)| *v < declared.max(o.nvars)).map(|(v, cls, ex)| json!({"v": v, "cls": cls, "exprs": ex})).collect::<Vec<_>>(),
     });
     if let Some(p) = &o.panic {
@@ -445,7 +457,7 @@ pub fn random(o: &Opts) -> R<()> {
     let mut panics = 0usize;
     let mut with_packed = 0usize;
     for i in 0..n {
-        let nv = rng.gen_range(2..=if i % 5 == 0 { 40 } else { 10 });
+        let nv = if i % 11 == 4 { *[12usize, 30, 36, 40].choose(&mut rng).unwrap() } else { rng.gen_range(2..=if i % 5 == 0 { 40 } else { 10 }) };
         let packed = i % 3 == 0;
         if packed {
             with_packed += 1;
@@ -484,6 +496,44 @@ pub fn random(o: &Opts) -> R<()> {
             let a = rng.gen_range(0..nv);
             js.push((a, TE::mapping(tv(rng.gen_range(0..nv)), tv(a))));
             js.push((a, TE::dyn_array(tv(a))));
+        }
+        // cycles through the first spans of several packed encodings (v1 = [v2 ..], v2 = [v1 ..]), with a
+        // sized word on some of them: evidence that can alternate between forests from round to round
+        if i % 7 == 6 || i % 7 == 0 {
+            let k = rng.gen_range(2..=4.min(nv));
+            let cyc: Vec<usize> = rand::seq::index::sample(&mut rng, nv, k).into_vec();
+            let w = *[8usize, 160, 256].choose(&mut rng).unwrap();
+            for (n, a) in cyc.iter().enumerate() {
+                let b = cyc[(n + 1) % k];
+                let mut spans = vec![Span::new(tv(b), 0, w)];
+                if w < 256 && rng.gen_bool(0.4) {
+                    spans.push(Span::new(tv(rng.gen_range(0..nv)), w, *[8usize, 96].choose(&mut rng).unwrap()));
+                }
+                js.push((*a, TE::Packed { types: spans, is_struct: false }));
+                if rng.gen_bool(0.5) {
+                    let word = match w {
+                        160 => TE::address(),
+                        8 => if rng.gen_bool(0.5) { TE::bool() } else { TE::word(Some(8), WordUse::SignedNumeric) },
+                        _ => TE::word(None, WordUse::Bytes),
+                    };
+                    js.push((*a, word));
+                }
+            }
+        }
+        // two long chains of constructed types that meet at the top: x0 ~ y0, x_i = C(x_{i+1}), y_i = C(y_{i+1});
+        // the equality of the components has to travel all the way down, one level per round
+        if i % 11 == 4 && nv >= 6 {
+            js.clear();
+            let depth = (nv / 2 - 1).min(19);
+            let (x, y) = (|k: usize| k, |k: usize| nv / 2 + k);
+            js.push((x(0), TE::eq(tv(y(0)))));
+            for k in 0..depth {
+                for side in [x(k), y(k)] {
+                    let inner = tv(side + 1);
+                    js.push((side, if (i / 11) % 2 == 0 { TE::dyn_array(inner) } else { TE::mapping(inner, inner) }));
+                }
+            }
+            js.push((x(depth), TE::address()));
         }
         let mut outs = Vec::new();
         let mut seen = BTreeSet::new();
